@@ -458,6 +458,11 @@ def check_history(case: t.Any, ctx: Ctx) -> None:
     cur = v0
     hashed = modified_after_hash = False
     ctx.label(f"scenario:{scn}")
+    (kh, eh) = outcome(lambda: hash(x))
+    if kh != 'ok':
+        # each of these configurations gets a field hash by the rule table (frozen + eq, unsafe_hash, or an inherited one)
+        ctx.fail('hash-table', f"unhashable:{scn}", f"{scn}: hash({x!r}) raised {type(eh).__name__}: {eh}")
+        return
     for (i, op) in enumerate(ops):
         ctx.evaluated()
         ident = f"{scn}: x = {make(v0, w)!r}; operations {ops[:i + 1]}"
